@@ -6,7 +6,9 @@ G  spec/js/JsTokensGen.tla     token sequences with separator choices: all pairs
                                substitution, triples, every trivia sequence, regular-expression bodies; -simulate for long sequences
 T  spec/js/JsTokensTrace.tla   judges the traces of harness/suites/jstok (js.Lexer.Next / RegExp)
 I  spec/js/JsLexImpl.tla       the lexer automaton over a class alphabet: TLC I => P on every class string, differential replay
-                               (checks/c06impl.py; a difference is MODEL-DRIFT, a verdict only from JsTokensTrace.tla)
+                               (checks/c06impl.py; a difference is MODEL-DRIFT, a verdict only from JsTokensTrace.tla: where the
+                               first differing report is one the model flags as prescribed - det, TLC-checked by DetSound - the
+                               trace carries the model's tokens as its expectation and is judged like a generator case)
 """
 import json
 import os
@@ -52,8 +54,9 @@ def classify(f):
         parts = here.split("+")
         here = "re:%s(%s)" % ("/=" if parts[0] == "re.open.eq" else "/", ",".join(sorted({x[3:] for x in parts[1:] if x not in ("re.close", "re.flags")})))
     prev = ctx_class(units[idx - 1], ek[idx - 1]) if 0 < idx <= len(units) else "^"
+    impl = o.get("plan") == "impl" and not o.get("free")      # see below
     if ev.get("out") != "ret":
-        return prev, here, "panic", ev
+        return ("", "impl", "%s|panic" % (ek[idx] if idx < len(ek) else "$"), ev) if impl else (prev, here, "panic", ev)
     # all-input invariants first
     if ev.get("cls") in ("kw", "punct", "op") and ev.get("text") != ev.get("canon"):
         return "", "canonical-spelling", "%s" % ev.get("kname"), ev
@@ -64,6 +67,26 @@ def classify(f):
             return "", "comment-line-terminator", "%s-%s-one" % (ev["kname"], "with" if has else "without"), ev
     if o.get("free"):
         return "", "free", "unexplained", ev
+    if impl:
+        # differential replay of JsLexImpl.tla: the expectation is the model's reports up to the first one that differs, which the
+        # model flags as prescribed (det).  The signature names the prescribed kind and what the lexer reported in its place.
+        want = ek[idx] if idx < len(ek) else "$"
+        if ev.get("err"):
+            msg = (ev.get("etext") or "").split(" on line")[0]
+            if msg.startswith("unexpected ") and not msg.startswith(("unexpected EOF", "unexpected identifier")):
+                msg = "unexpected character"          # "unexpected <rune>": one mechanism, whatever the rune
+            got = "end-of-input" if ev.get("eof") else "error:" + msg.replace(" ", "-")[:40]
+        elif idx >= len(ek) or ev.get("kname") != want:
+            got = "%s" % ev.get("kname")
+        elif ev.get("lo") != o["elo"][idx]:
+            got = "%s:misplaced" % want
+        elif ev.get("hi") != o["ehi"][idx]:
+            got = "%s:%s" % (want, "longer" if ev.get("hi") > o["ehi"][idx] else "shorter")
+        elif ev.get("pre") != o["epre"][idx]:
+            got = "%s:before-RegExp:%s-expected-%s" % (want, ev.get("pre") or "none", o["epre"][idx] or "none")
+        else:
+            got = "%s:text-not-the-input-bytes" % want
+        return "", "impl", "%s|%s" % (want, got), ev
     if idx >= len(ek):
         return prev, "$", ("extra-token:%s" % ev.get("kname") if not ev.get("err") else "error-instead-of-end"), ev
     if ek[idx] in ("Whitespace", "LineTerminator"):
@@ -101,7 +124,7 @@ def signatures(fails):
 
 
 def open_record(o):
-    return {k: o.get(k) for k in ("input", "ek", "elo", "ehi", "epre", "free", "units", "plan")}
+    return {k: o.get(k) for k in ("input", "ek", "elo", "ehi", "epre", "free", "prefix", "units", "plan")}
 
 
 def rerun(ck, records):
@@ -137,7 +160,10 @@ def judge(ck, fails, origin):
         o = f["trace"][0]
         obs = [{"kind": x.get("kname"), "text": text_of(o["input"], x.get("lo"), x.get("hi")), "err": x.get("etext")} for x in f["trace"][1:f["i"] + 1]][-4:]
         exp = [{"kind": k_, "text": text_of(o["input"], lo, hi)} for k_, lo, hi in zip(o["ek"], o["elo"], o["ehi"])]
-        if o.get("free") or s.count("/") == 2 and "|" not in s:
+        if o.get("plan") == "impl" and not o.get("free") and s.startswith("jstok/impl/"):
+            want = "spec/js/JsLexImpl.tla flags report %d as PRESCRIBED by JsTokens.tla / ECMA-262 clause 12 (det, checked by TLC: DetSound) and all reports before it agree: expected %s (classes %s)" % (
+                f["i"], json.dumps(exp[f["i"] - 1] if f["i"] - 1 < len(exp) else "end of input", ensure_ascii=False), o.get("units"))
+        elif o.get("free") or s.count("/") == 2 and "|" not in s:
             want = "TokenInv of JsTokens.tla (canonical spelling of keyword/punctuator/operator types; CommentLineTerminator iff the comment has a line terminator)"
         else:
             want = "JsTokens.tla expects %s (units %s)" % (
